@@ -5,8 +5,8 @@ firewall in the cone verified in this epoch) and `NGood` (consistent down to the
 with current transitive-firewall-callee fingerprints), the invariant `Inv`, `Frame`, and their basic
 theory.
 
-The invariant (for programs without projection nodes, `NoProj`; see `Props/C01.lean` for why the
-repaired design is not sound with projections):
+The invariant (stage 1 of the projection development: projections read firewalls only, clause
+`pjFw`):
 * `solid`  (I1)  verified in this epoch ⇒ `Solid`;
 * `clean`  (I2/I3, marking) a clean recorded edge `(x, y)` ⇒ the observed value is the stored one,
   and for a normal callee the fingerprint seen is the callee's current set and the callee is `NGood`
@@ -51,11 +51,14 @@ def cur (p : Program) (s : St) (k : Key) : Option Val :=
 
 def Verified (s : St) (x : Key) : Prop := ∃ n, s.nodes x = some n ∧ n.lastVerified = s.epoch
 
-/-- consistent all the way down, fingerprints of normal callees current, every firewall in the cone
-    verified in this epoch -/
+/-- consistent all the way down, fingerprints of non-firewall callees current, every firewall in the
+    cone verified in this epoch, every projection in the cone verified in this epoch or without a
+    callee whose backward projection is pending (such a projection is never re-executed) -/
 inductive Solid (s : St) : Key → Prop
   | mk (k : Key) (n : Node) : s.nodes k = some n →
       (n.kind = .firewall → n.lastVerified = s.epoch) →
+      (n.kind = .projection →
+        n.lastVerified = s.epoch ∨ ∀ d o, (d, o) ∈ n.deps → hasPending s d = false) →
       (∀ d o, (d, o) ∈ n.deps →
         ∃ nd, s.nodes d = some nd ∧ nd.value = o ∧ (nd.kind ≠ .firewall → nd.tfc = n.seen d)) →
       (∀ d o, (d, o) ∈ n.deps → Solid s d) → Solid s k
@@ -73,12 +76,26 @@ def Just (p : Program) (s : St) (x : Key) : Prop :=
   ¬ Verified s x ∧
     (s.nodes x = none ∨ ∃ n d o, s.nodes x = some n ∧ (d, o) ∈ n.deps ∧ cur p s d ≠ some o)
 
+/-- the execution of `x` between `s` and `s'` is that of a projection re-executed by the backward
+    projection of a callee: the callee's backward projection was pending in `s`, or its stored value or
+    its firewall set changed between `s` and `s'` (finding F13: it need not differ from what the
+    projection observed) -/
+def Forced (s s' : St) (x : Key) : Prop :=
+  ¬ Verified s x ∧ ∃ n f o, s.nodes x = some n ∧ n.kind = .projection ∧ (f, o) ∈ n.deps ∧
+    (hasPending s f = true ∨ ∃ nf nf', s.nodes f = some nf ∧ s'.nodes f = some nf' ∧
+      (nf'.value ≠ nf.value ∨ nf'.tfc ≠ nf.tfc))
+
 structure Inv (p : Program) (s : St) : Prop where
   kind : ∀ k n, s.nodes k = some n →
     ∃ d, p[k]? = some d ∧ d.kind = n.kind ∧
       (n.kind = .input ∨ n.kind = .external → n.deps = [] ∧ n.tfc = [])
-  /-- this development: programs without projection nodes -/
-  noProj : ∀ k n, s.nodes k = some n → n.kind ≠ .projection
+  /-- stage 1: a projection has recorded firewalls only -/
+  pjFw : ∀ k n, s.nodes k = some n → n.kind = .projection →
+    ∀ d o nd, (d, o) ∈ n.deps → s.nodes d = some nd → nd.kind = .firewall
+  /-- I7: a recorded callee of a projection whose stored value is not the observed one has a pending
+      backward projection -/
+  pjBroken : ∀ k n, s.nodes k = some n → n.kind = .projection →
+    ∀ d o nd, (d, o) ∈ n.deps → s.nodes d = some nd → nd.value ≠ o → nd.pendingBP = true
   down : ∀ k n, s.nodes k = some n → ∀ d o, (d, o) ∈ n.deps → d < k ∧ ∃ nd, s.nodes d = some nd
   tfcDown : ∀ k n, s.nodes k = some n → ∀ f, f ∈ n.tfc → f < k
   nodup : ∀ k n, s.nodes k = some n → (n.deps.map (·.1)).Nodup
@@ -86,7 +103,8 @@ structure Inv (p : Program) (s : St) : Prop where
     TraceOK d.prog n.deps n.value
   stamp : ∀ k n, s.nodes k = some n → n.lastVerified ≤ s.epoch
   seenSub : ∀ k n, s.nodes k = some n → ∀ d o nd, (d, o) ∈ n.deps → s.nodes d = some nd →
-    (nd.kind = .firewall → d ∈ n.tfc) ∧ (nd.kind = .normal → ∀ f, f ∈ n.seen d → f ∈ n.tfc)
+    (nd.kind = .firewall → d ∈ n.tfc) ∧
+      (nd.kind = .normal ∨ nd.kind = .projection → ∀ f, f ∈ n.seen d → f ∈ n.tfc)
   solid : ∀ k n, s.nodes k = some n → n.lastVerified = s.epoch → Solid s k
   clean : ∀ x n, s.nodes x = some n → ∀ y o, (y, o) ∈ n.deps → s.dirty x y = false →
     ∃ ny, s.nodes y = some ny ∧ ny.value = o ∧ (ny.kind ≠ .firewall → ny.tfc = n.seen y) ∧ (ny.kind = .normal → NGood s y)
@@ -98,13 +116,23 @@ structure Frame (p : Program) (s s' : St) : Prop where
   world : s'.world = s.world
   keep : ∀ x n, Solid s x → s.nodes x = some n →
     ∃ n', s'.nodes x = some n' ∧ n'.value = n.value ∧ n'.deps = n.deps ∧ n'.tfc = n.tfc ∧
-      n'.seen = n.seen ∧ n'.kind = n.kind
+      n'.seen = n.seen ∧ n'.kind = n.kind ∧ (n'.pendingBP = true → n.pendingBP = true)
+  /-- a node verified in this epoch keeps its data -/
+  vkeep : ∀ x n, s.nodes x = some n → n.lastVerified = s.epoch →
+    ∃ n', s'.nodes x = some n' ∧ n'.value = n.value ∧ n'.tfc = n.tfc
+  /-- a backward projection becomes pending only with a changed value or firewall set -/
+  pend : ∀ x n', s'.nodes x = some n' → n'.pendingBP = true →
+    ∃ n, s.nodes x = some n ∧ (n.pendingBP = true ∨ n'.value ≠ n.value ∨ n'.tfc ≠ n.tfc)
   same_or_verified : ∀ x, s'.nodes x = s.nodes x ∨ Verified s' x
-  log : ∃ new, s'.log = s.log ++ new ∧ new.Nodup ∧ (∀ x, x ∈ new → Just p s x ∧ Verified s' x) ∧
+  log : ∃ new, s'.log = s.log ++ new ∧ new.Nodup ∧
+    (∀ x, x ∈ new → (Just p s x ∨ Forced s s' x) ∧ Verified s' x) ∧
     ∀ x, s.nodes x = none → s'.nodes x ≠ none → x ∈ new
 
-/-- keys `≥ b` keep their node -/
-def Touches (b : Nat) (s s' : St) : Prop := ∀ x, b ≤ x → s'.nodes x = s.nodes x
+/-- keys `≥ b` keep their node, and no pending backward projection is cleared (the requests of query
+    callers never perform one) -/
+def Touches (b : Nat) (s s' : St) : Prop :=
+  (∀ x, b ≤ x → s'.nodes x = s.nodes x) ∧
+    ∀ x n, s.nodes x = some n → n.pendingBP = true → ∃ n', s'.nodes x = some n' ∧ n'.pendingBP = true
 
 -- ------------------------------------------------------------------ the specification
 
@@ -155,29 +183,48 @@ theorem cur_exec {p : Program} (wf : WF p) {s : St} {k : Key} {d : NodeDef} (hp 
 
 theorem Solid.node {s : St} {k : Key} (h : Solid s k) : ∃ n, s.nodes k = some n := by
   cases h with
-  | mk _ n hn _ _ _ => exact ⟨n, hn⟩
+  | mk _ n hn _ _ _ _ => exact ⟨n, hn⟩
 
-/-- a node without recorded dependencies that is not a firewall is `Solid` -/
+/-- a node without recorded dependencies that is neither a firewall nor a projection is `Solid` -/
 theorem Solid.leaf {s : St} {k : Key} {n : Node} (hn : s.nodes k = some n) (hd : n.deps = [])
     (hf : n.kind = .firewall → n.lastVerified = s.epoch) : Solid s k :=
-  Solid.mk k n hn hf (fun d o hm => by rw [hd] at hm; cases hm) (fun d o hm => by rw [hd] at hm; cases hm)
+  Solid.mk k n hn hf (fun _ => Or.inr (fun d o hm => by rw [hd] at hm; cases hm))
+    (fun d o hm => by rw [hd] at hm; cases hm) (fun d o hm => by rw [hd] at hm; cases hm)
 
 theorem Solid.nGood {s : St} {k : Key} (h : Solid s k) : NGood s k := by
   induction h with
-  | mk k n hn _ hval _ ih => exact NGood.mk k n hn hval (fun d o _ hm _ _ => ih d o hm)
+  | mk k n hn _ _ hval _ ih => exact NGood.mk k n hn hval (fun d o _ hm _ _ => ih d o hm)
 
-/-- transfer of `Solid` along a state change that keeps the recorded data of solid nodes and the
-    verification of solid firewalls -/
+theorem hasPending_of_node {s : St} {d : Key} {nd : Node} (h : s.nodes d = some nd) :
+    hasPending s d = nd.pendingBP := by simp [hasPending, h]
+
+/-- transfer of `Solid` along a state change that keeps the recorded data of solid nodes, the
+    verification of solid nodes, and sets no pending flag on them -/
 theorem Solid.transfer {s s' : St} {x : Key} (h : Solid s x)
     (hn : ∀ y n, Solid s y → s.nodes y = some n →
       ∃ n', s'.nodes y = some n' ∧ n'.value = n.value ∧ n'.deps = n.deps ∧ n'.tfc = n.tfc ∧
-        n'.seen = n.seen ∧ n'.kind = n.kind ∧ (n.kind = .firewall → n'.lastVerified = s'.epoch)) :
+        n'.seen = n.seen ∧ n'.kind = n.kind ∧ (n.lastVerified = s.epoch → n'.lastVerified = s'.epoch) ∧
+        (n'.pendingBP = true → n.pendingBP = true)) :
     Solid s' x := by
   induction h with
-  | mk k n hk hfw hval hsub ih =>
-    have hs : Solid s k := Solid.mk k n hk hfw hval hsub
-    obtain ⟨n', hn', hv', hd', ht', hse', hki', hver'⟩ := hn k n hs hk
-    refine Solid.mk k n' hn' (fun hf => hver' (by rw [← hki']; exact hf)) ?_ ?_
+  | mk k n hk hfw hq hval hsub ih =>
+    have hs : Solid s k := Solid.mk k n hk hfw hq hval hsub
+    obtain ⟨n', hn', hv', hd', ht', hse', hki', hver', _⟩ := hn k n hs hk
+    refine Solid.mk k n' hn' (fun hf => hver' (hfw (by rw [← hki']; exact hf))) ?_ ?_ ?_
+    · intro hp
+      rcases hq (by rw [← hki']; exact hp) with h | h
+      · exact Or.inl (hver' h)
+      · refine Or.inr ?_
+        intro d o hm
+        rw [hd'] at hm
+        obtain ⟨nd, hnd, _, _⟩ := hval d o hm
+        obtain ⟨nd', hnd', _, _, _, _, _, _, hpe⟩ := hn d nd (hsub d o hm) hnd
+        have h0 := h d o hm
+        rw [hasPending_of_node hnd] at h0
+        rw [hasPending_of_node hnd']
+        cases hx : nd'.pendingBP with
+        | false => rfl
+        | true => rw [hpe hx] at h0; cases h0
     · intro d o hm
       rw [hd'] at hm
       obtain ⟨nd, hnd, hvd, hacc⟩ := hval d o hm
@@ -193,7 +240,7 @@ theorem verified_solid {p : Program} {s : St} (inv : Inv p s) {k : Key} {n : Nod
 theorem solid_correct {p : Program} (wf : WF p) {s : St} (inv : Inv p s) {k : Key}
     (h : Solid s k) : ∃ n, s.nodes k = some n ∧ cur p s k = some n.value := by
   induction h with
-  | mk k n hk _ hval hsub ih =>
+  | mk k n hk _ _ hval hsub ih =>
     refine ⟨n, hk, ?_⟩
     obtain ⟨d, hp, hki, hnd⟩ := inv.kind k n hk
     by_cases hi : n.kind = .input
@@ -227,7 +274,7 @@ theorem just_not_solid {p : Program} (wf : WF p) {s : St} (inv : Inv p s) {k : K
   obtain ⟨_, h | ⟨n, d, o, hn, hm, hne⟩⟩ := h
   · obtain ⟨n, hn⟩ := hs.node; rw [h] at hn; cases hn
   · cases hs with
-    | mk _ n' hn' _ hval hsub =>
+    | mk _ n' hn' _ _ hval hsub =>
       rw [hn] at hn'; cases hn'
       obtain ⟨nd, hnd, hv, _⟩ := hval d o hm
       obtain ⟨nd', hnd', hc⟩ := solid_correct wf inv (hsub d o hm)
@@ -243,14 +290,41 @@ theorem settledFw_iff {s : St} {f : Key} :
   | none => simp
   | some n => simp
 
+/-- I7, derived: a projection all of whose recorded firewalls are settled is `Solid` -/
+theorem Inv.proj_solid {p : Program} {s : St} (inv : Inv p s) {z : Key} {n : Node}
+    (hz : s.nodes z = some n) (hk : n.kind = .projection)
+    (hall : ∀ f, f ∈ n.tfc → settledFw s f = true) : Solid s z := by
+  have dep : ∀ d o, (d, o) ∈ n.deps → ∃ nd, s.nodes d = some nd ∧ nd.kind = .firewall ∧
+      nd.lastVerified = s.epoch ∧ nd.pendingBP = false := by
+    intro d o hm
+    obtain ⟨_, nd, hnd⟩ := inv.down z n hz d o hm
+    have hkd := inv.pjFw z n hz hk d o nd hm hnd
+    obtain ⟨nf, hnf, hv, hp⟩ := settledFw_iff.1 (hall d ((inv.seenSub z n hz d o nd hm hnd).1 hkd))
+    rw [hnd] at hnf; cases hnf
+    exact ⟨nd, hnd, hkd, hv, hp⟩
+  refine Solid.mk z n hz (fun h => by rw [hk] at h; cases h) (fun _ => Or.inr ?_) ?_ ?_
+  · intro d o hm
+    obtain ⟨nd, hnd, _, _, hp⟩ := dep d o hm
+    rw [hasPending_of_node hnd]; exact hp
+  · intro d o hm
+    obtain ⟨nd, hnd, hkd, _, hp⟩ := dep d o hm
+    refine ⟨nd, hnd, ?_, fun h => absurd hkd h⟩
+    false_or_by_contra
+    rename_i hne
+    have := inv.pjBroken z n hz hk d o nd hm hnd hne
+    rw [hp] at this; cases this
+  · intro d o hm
+    obtain ⟨nd, hnd, _, hv, _⟩ := dep d o hm
+    exact inv.solid d nd hnd hv
+
 /-- an `NGood` normal node all of whose recorded firewalls are settled is `Solid` -/
 theorem NGood.solid_of_settled {p : Program} {s : St} (inv : Inv p s) {k : Key} (h : NGood s k) :
-    ∀ n, s.nodes k = some n → n.kind ≠ .firewall → (∀ f, f ∈ n.tfc → settledFw s f = true) → Solid s k := by
+    ∀ n, s.nodes k = some n → n.kind = .normal → (∀ f, f ∈ n.tfc → settledFw s f = true) → Solid s k := by
   induction h with
   | mk k n hk hval hsub ih =>
-    intro n' hk' hnf hall
+    intro n' hk' hnm hall
     rw [hk] at hk'; cases hk'
-    refine Solid.mk k n hk (fun h => absurd h hnf) hval ?_
+    refine Solid.mk k n hk (fun h => by rw [hnm] at h; cases h) (fun h => by rw [hnm] at h; cases h) hval ?_
     intro d o hm
     obtain ⟨nd, hnd, hvd, hacc⟩ := hval d o hm
     obtain ⟨sfw, snm⟩ := inv.seenSub k n hk d o nd hm hnd
@@ -263,10 +337,14 @@ theorem NGood.solid_of_settled {p : Program} {s : St} (inv : Inv p s) {k : Key} 
       rw [hnd] at hnf'; cases hnf'
       exact inv.solid d nd hnd hv
     | normal =>
-      refine ih d o nd hm hnd hkn nd hnd (by rw [hkn]; decide) ?_
+      refine ih d o nd hm hnd hkn nd hnd hkn ?_
       intro f hf
       rw [hacc (by rw [hkn]; decide)] at hf
-      exact hall f (snm hkn f hf)
-    | projection => exact absurd hkn (inv.noProj d nd hnd)
+      exact hall f (snm (Or.inl hkn) f hf)
+    | projection =>
+      refine inv.proj_solid hnd hkn ?_
+      intro f hf
+      rw [hacc (by rw [hkn]; decide)] at hf
+      exact hall f (snm (Or.inr hkn) f hf)
 
 end Qbice.CoreFw
